@@ -456,6 +456,14 @@ def check_extraction(fx, R, S):
         R.undecided('R3', 'rotation3DToEulerAngles<%s>' % S, 'result not readable as a vector')
         return
     out = sts[0].ret
+    eul = [x for x in walk(f['body']) if isinstance(x, dict) and x.get('k') == 'MCall' and x.get('m') == 'eulerAngles' and not x.get('inrepo')]
+    if eul:
+        from ..tree import const_value
+        axes = [const_value(a_) for a_ in eul[0].get('args', [])]
+        R.violated('R3', 'rotation3DToEulerAngles:eigen-euler-range', 'the angles are taken from Eigen\'s MatrixBase::eulerAngles(%s), whose documented result ranges are [0, pi] x [-pi, pi] x [-pi, pi]: its FIRST '
+                   'angle (the yaw here) is never in (pi, 2 pi), so for a yaw congruent to a value in (-pi, 0) - inside the quantifier, yaw in (-2 pi, 2 pi) - it returns the other Z-Y-X solution '
+                   '(roll + pi, pi - pitch, yaw + pi): the same rotation, not the same angles modulo 2 pi [%s]' % (', '.join(str(a_) for a_ in axes), S), fx.rel(eul[0].get('loc') or f['loc']), 'E-INT')
+        return
     for k, (name, ang) in enumerate((('roll', r), ('pitch', p), ('yaw', y))):
         v = out[k, 0]
         inst = 'rotation3DToEulerAngles<%s>:%s' % (S, name)
@@ -465,6 +473,9 @@ def check_extraction(fx, R, S):
         a = v.args[0]
         if name == 'pitch':
             # expected  -asin(-sin p)
+            if not (a.free_symbols <= {r, p, y}) or a.atoms(sp.core.function.AppliedUndef):
+                R.undecided('R3', inst, 'pitch is read as %s, which is not a formula of the matrix entries this rule can evaluate' % str(a)[:120])
+                continue
             ok = sp.simplify(sp.sin(a) - sp.sin(p)) == 0 and (a.func == sp.asin or (-a).func == sp.asin or a.could_extract_minus_sign())
             R.check(bool(ok), 'R3', inst, 'pitch is read as %s; on R = Rz Ry Rx the entry R(2,0) is -sin(pitch), so pitch = -asin(R(2,0))' % a, 'pitch = -asin(R(2,0)) = pitch', loc, 'E-ALG')
         else:
@@ -643,8 +654,16 @@ def check_polar(fx, R, S):
         R.undecided('R6', 'toCartesian(Polar<%s>)' % S, 'does not depend on exactly range and azimut: %s' % sorted(syms))
         return
     r, a = syms[rn[0]], syms[an[0]]
-    okc = sp.simplify(XY[0] - r * sp.cos(a)) == 0 and sp.simplify(XY[1] - r * sp.sin(a)) == 0
-    R.check(okc, 'R6', 'toCartesian(Polar<%s>)' % S, 'Cartesian point is %s, expected (r cos a, r sin a)' % (XY.T.tolist(),), '(r cos a, r sin a)', fx.rel(fc['loc']), 'E-ALG')
+    def pdom(s_):
+        return (1, 1000) if s_.name.endswith('range_') else (-314, 314) if s_.name.endswith('azimut_') else None
+
+    def opaque_in(*vals):
+        return [str(f_)[:60] for v in vals if isinstance(v, sp.Basic) for f_ in v.atoms(sp.core.function.AppliedUndef)]
+    if opaque_in(XY[0], XY[1]):
+        R.undecided('R6', 'toCartesian(Polar<%s>)' % S, 'the Cartesian point contains uninterpreted operations (%s)' % opaque_in(XY[0], XY[1])[0])
+    else:
+        alg.check_zero(R, sp.Matrix([XY[0] - r * sp.cos(a), XY[1] - r * sp.sin(a)]), 'R6', 'toCartesian(Polar<%s>)' % S, 'Cartesian point is %s, expected (r cos a, r sin a)' % (str(XY.T.tolist())[:200],),
+                       '(r cos a, r sin a)', fx.rel(fc['loc']), domain=pdom)
     try:
         ps = rd.run(ft, args=[sp.ImmutableMatrix(XY)])
     except sym.Unsupported as u:
@@ -656,11 +675,20 @@ def check_polar(fx, R, S):
         return
     rr = next((v for k, v in ret.items() if k.endswith('range_')), None)
     aa = next((v for k, v in ret.items() if k.endswith('azimut_')), None)
-    ok = isinstance(rr, sp.Basic) and sp.simplify(rr ** 2 - r ** 2) == 0 and isinstance(aa, sp.Basic) and aa.func == sp.atan2
-    if ok:
+    if not (isinstance(rr, sp.Basic) and isinstance(aa, sp.Basic)):
+        R.undecided('R6', 'toPolar<%s>' % S, 'range / azimut not readable: %s, %s' % (rr, aa))
+        return
+    if opaque_in(rr, aa):
+        R.undecided('R6', 'toPolar<%s>' % S, 'the result contains uninterpreted operations (%s)' % opaque_in(rr, aa)[0])
+        return
+    if aa.func == sp.atan2:
+        # atan2(A, B) = a on (-pi, pi) iff (A, B) is a positive multiple of (sin a, cos a)
         A, B = aa.args
-        ok = sp.simplify(A * sp.cos(a) - B * sp.sin(a)) == 0 and sp.simplify(B / sp.cos(a) - r) == 0
-    R.check(bool(ok), 'R6', 'toPolar<%s>' % S, 'toPolar(toCartesian(r,a)) gives range %s, azimut %s' % (rr, aa), 'range = r, azimut = atan2(r sin a, r cos a)', fx.rel(ft['loc']), 'E-ALG')
+        resid = sp.Matrix([sp.simplify(rr ** 2 - r ** 2), sp.simplify(A * sp.cos(a) - B * sp.sin(a)), sp.simplify(A * sp.sin(a) + B * sp.cos(a) - r)])
+    else:
+        resid = sp.Matrix([rr ** 2 - r ** 2, aa - a])
+    alg.check_zero(R, resid, 'R6', 'toPolar<%s>' % S, 'toPolar(toCartesian(r,a)) gives range %s, azimut %s (r > 0, a in (-pi, pi))' % (str(rr)[:160], str(aa)[:160]),
+                   'range = r, azimut = atan2(r sin a, r cos a)', fx.rel(ft['loc']), domain=pdom)
 
 
 def check_spherical(fx, R, S):
